@@ -54,7 +54,7 @@ def run(ctx, driver):
     quick = ctx.tier == "quick"
     ctx.rule = ("generated systems (17 shapes) x parameters block none/all/partial/with an unused extra/with a parameter referenced only by an initial value x default or custom "
                 "output_timestep_symbol and differential_order_symbol x optional function-of-time entry x disable_analytic_solver; every returned dictionary checked; "
-                "distinct = distinct inputs; non-trivial = result with >= 2 state variables or two solvers")
+                "distinct = distinct inputs; non-trivial = result with >= 2 state variables or two solvers; incl. non-autonomous equations (no propagator and no analytic update expression may name the configured time symbol), values printed in exponent notation, names from the marker's alphabet; a second, traced run per input feeds the glue correspondence (initial-value copy, SystemOfShapes.get_initial_value per state variable)")
     cases = gen_cases(ctx, ctx.n(110, 2000))
     results = pool.run_cases("harness.core.cases", "case_dict", cases, timeout=ctx.n(50, 120), init="init_worker", deadline=ctx.deadline())
     for case, res in zip(cases, results):
